@@ -1397,8 +1397,13 @@ reply_parse(struct evdns_base *base, u8 *packet, int length)
 				goto err;
 			if (req->need_cname)
 				reply.cname = mm_strdup(cname);
-			if (req->put_cname_in_ptr && !*req->put_cname_in_ptr)
+			if (req->put_cname_in_ptr) {
+				/* keep the last CNAME of a chain: that is the
+				 * canonical name */
+				if (*req->put_cname_in_ptr)
+					mm_free(*req->put_cname_in_ptr);
 				*req->put_cname_in_ptr = mm_strdup(cname);
+			}
 		} else if (type == TYPE_AAAA && class == CLASS_INET) {
 			int addrcount;
 			if (req->request_type != TYPE_AAAA) {
@@ -4122,6 +4127,7 @@ search_try_next(struct evdns_request *const handle) {
 	return 1;
 
 submit_next:
+	newreq->put_cname_in_ptr = req->put_cname_in_ptr;
 	request_finished(req, &REQ_HEAD(req->base, req->trans_id), 0);
 	handle->current_req = newreq;
 	newreq->handle = handle;
